@@ -83,6 +83,44 @@ def run(repo='/repo', tier='quick'):
             res.check(ok, 'C14.a', key, 'no CR is owed when the flag is overwritten',
                       '%s overwrites cr_aside (= %s, arm "%s") while a CR set aside at the end of the previous chunk may still be owed and has not been emitted: that CR byte disappears from the part data when the body is cut right after it' % (fname, P.K(w['r']), arm), w['loc'])
     res.floor('C14.a', 'assignments to cr_aside', nassign, 5)
+    # postcondition of the replay routine: no CR stays set aside once the aside data has been processed
+    g = db.get('htp_martp_process_aside')
+
+    def gen0(b, j):
+        c = g.cond_of(b)
+        a = P.canon(c[0], j == 0) if c else None
+        return bool(a) and a[0] == key_cr and a[1] == '==' and a[2] == '0'
+
+    def kill1(st):
+        return any(is_lit(w['r'], 1) for w in P.assigns_field(st, 'cr_aside', '='))
+    # "cleared" is generated by `cr_aside = 0` inside blocks: model by a must-analysis over a derived CFG fact
+    live = C.reachable(g, g.entry)
+    IN0 = {b: True for b in live}
+    IN0[g.entry] = False
+
+    def flow0(b, s):
+        for st in g.blocks[b]['stmts']:
+            for w in P.assigns_field(st, 'cr_aside', '='):
+                s = bool(is_lit(w['r'], 0))
+        return s
+    ch = True
+    while ch:
+        ch = False
+        for b in live:
+            if b == g.entry:
+                continue
+            v = True
+            for p in g.preds.get(b, []):
+                if p in live:
+                    for j, s_ in enumerate(g.blocks[p]['succs']):
+                        if s_ == b:
+                            v = v and (True if gen0(p, j) else flow0(p, IN0[p]))
+            if v != IN0[b]:
+                IN0[b] = v
+                ch = True
+    bad = [st for b, i, st in g.returns() if b in live and not flow0(b, IN0[b])]
+    res.check(not bad, 'C14.a', 'htp_martp_process_aside:returns-with-cr_aside-clear', 'every path through the replay routine leaves cr_aside == 0',
+              'htp_martp_process_aside can return with cr_aside still set (for example after a boundary match): the CR that belonged to the line ending before the boundary is later released as data into the next part', (bad[0] if bad else {'loc': g.loc})['loc'])
 
     # ---------------- C14.b
     nts = 0
@@ -168,6 +206,26 @@ def run(repo='/repo', tier='quick'):
             if a and a[0] == 'data[((startpos + dlen) - 1)]' and a[1] == '==' and a[2] in ('LF', 'CR'):
                 strip_ok += 1
     res.check(strip_ok == 2, 'C14.d', 'htp_mpartp_parse:strip-line-ending-before-boundary', 'LF then CR are stripped from the data before a matched boundary', 'the line ending before a matched boundary is no longer stripped as LF then CR', f.loc)
+    # ---------------- C14.f sibling agreement: the closing-quote scanner and the in-place decoder recognise the same escapes
+    res.rule('C14.f', 'the Content-Disposition value scanner and the quoted-value decoder agree on which characters a backslash escapes')
+
+    def escapes(fn):
+        out = set()
+        for b in fn.blocks:
+            cnd = fn.cond_of(b)
+            if not cnd:
+                continue
+            a = P.canon(cnd[0])
+            if a and a[1] in ('==', '!=') and ('+ 1)' in a[0]) and (a[0].startswith('data[') or a[0].startswith('*')):
+                if any(x[1] == '==' and x[2] in ("'\\\\'", '92') for x, e in P.facts_at(fn, b)) or True:
+                    out.add(a[2])
+        return out
+    sc, dc = db.get('htp_mpart_part_parse_c_d'), db.get('htp_mpart_decode_quoted_cd_value_inplace')
+    es, ed = escapes(sc), escapes(dc)
+    res.analysed['escaped characters: scanner / decoder'] = [sorted(es), sorted(ed)]
+    res.check(bool(es) and es == ed, 'C14.f', 'quoted-value:escape-sets-agree', 'scanner and decoder both treat %s as escapable' % sorted(es),
+              'the closing-quote scanner steps over a backslash followed by %s but the decoder unescapes %s: a value such as "dir\\\\" is cut at the wrong quote or declined' % (sorted(es), sorted(ed)), sc.loc)
+
     # ---------------- C14.e
     h = db.get('htp_ch_multipart_callback_request_body_data')
     nm = [a for b, i, st in h.stmts() for a in nodes(st, lambda y: y.get('k') == 'assign' and P.K(y['l']) == 'param->name')]
